@@ -1,6 +1,6 @@
 #!/bin/bash
 # verify_seed.sh <worktree> <check>... : confirm a seeded change (suite green, demo fails with / passes without),
-# then run the given checks against /repo with the patch applied, and undo it.
+# then run the given checks against a scratch copy of /repo with the patch applied (/repo itself is not touched).
 wt="$1"; shift
 export CARGO_NET_OFFLINE=true CARGO_TARGET_DIR="$wt/target"
 cd "$wt" || exit 2
@@ -12,12 +12,11 @@ echo "== demo with the change"; (cd demo && cargo test --offline 2>&1 | grep -E 
 git apply -R patch.diff || { echo "cannot reverse patch"; exit 2; }
 echo "== demo without the change"; (cd demo && cargo test --offline 2>&1 | grep -E "^test result|test .* FAILED|error(\[|:)" | head -8)
 git apply patch.diff
-echo "== checks against /repo with the patch"
-cd /repo && [ -z "$(git status --porcelain --untracked-files=no)" ] || { echo "repo dirty"; exit 2; }
-git apply "$wt/patch.diff" || { echo "patch does not apply to /repo"; exit 2; }
+echo "== checks against a scratch copy of /repo with the patch"
+alt="$(/verif/tools/altrepo.sh)"
+git -C "$alt" apply "$wt/patch.diff" || { echo "patch does not apply to /repo HEAD"; exit 2; }
 unset CARGO_TARGET_DIR
 for c in "$@"; do
-  (cd /verif && ./vcheck "$c" quick 2>&1 | grep -aE "^VIOLATION|^KNOWN|class:|tier:|MACHINERY" | cut -c1-230 | head -8; echo "[$c exit=${PIPESTATUS[0]}]")
+  (cd /verif && VERIF_REPO="$alt" ./vcheck "$c" quick 2>&1 | grep -aE "^VIOLATION|^KNOWN|class:|tier:|MACHINERY" | cut -c1-230 | head -8; echo "[$c exit=${PIPESTATUS[0]}]")
 done
-cd /repo && git checkout -q -- . && git status --short | head -2
-git -C /verif checkout -q -- evidence 2>/dev/null  # evidence written by runs against a changed tree is not evidence
+/verif/tools/altrepo.sh >/dev/null
